@@ -38,7 +38,8 @@ Small(e) ==
     /\ (e.a >= 0 /\ e.b > 0) => (e.div_ceil = CeilDiv(e.a, e.b) /\ e.round_up = CeilDiv(e.a, e.b) * e.b)
 Agg(e) ==
     LET all == e.xs \o e.ys IN
-    /\ \A i \in DOMAIN e.results : AggOK(all, e.results[i].count, e.results[i].min, e.results[i].max, e.results[i].sum, e.results[i].nnvar)
+    /\ Len(e.results) = 6 /\ e.aliases = TRUE
+    /\ \A i \in DOMAIN e.results : AggOK(all, e.results[i].count, e.results[i].min, e.results[i].max, e.results[i].sum, e.results[i].nnvar) /\ e.results[i].exact = TRUE
 Step ==
     CASE Ev.e = "reset" -> TRUE
       [] Ev.e = "word" -> Word(Ev)
